@@ -41,9 +41,6 @@ def allowList : List Allow := [
     why := "fallback search `sprintf (buf, \"%s/%s\", inc_list[i], name)`: inc_list entries passed legal_path in " ++
            "set_inc_list (\"\" is stored as \".\") and `name` was just rejected if it contains \"..\": theorems " ++
            "include_path_confined, inc_dir_ok" },
-  { file := "lib/efuns/ed.c", fn := "save_ed_buffer", callee := "dowrite", root := "stmp->u.string",
-    why := "the file name is the master's own answer (get_ed_buffer_save_file_name) when an editing user goes " ++
-           "net-dead: the approving authority chose the path itself (observation O-2 in notes/C15.md)" },
   { file := "lib/lpc/program/binaries.c", fn := "save_binary", callee := "crdir_fopen", root := "prog->name",
     why := "SaveBinaryDir (configuration) + \"/\" + program name; the program name passed legal_path in load_object" },
   { file := "lib/lpc/program/binaries.c", fn := "save_binary", callee := "fopen", root := "prog->name",
